@@ -1,5 +1,346 @@
-/- C11 — theorems under construction. -/
-import BEI.Model.App
+/-
+  C11 — Built-in conditions follow their documented patterns in the chosen time base.
+  Histories are lists of (value, tick) frames, newest first; every statement holds for histories of any length.
+-/
+import BEI.Model.Conditions
+import Mathlib.Algebra.Order.Field.Basic
+import Mathlib.Tactic.Linarith
+import Mathlib.Tactic.SplitIfs
 namespace BEI.Props.C11
-theorem placeholder_true : True := trivial
+open BEI Cond
+
+/-- a frame as a condition sees it -/
+abbrev Frame := Value × Tick
+/-- a history, newest frame first -/
+abbrev Hist := List Frame
+
+/-- running a condition's step function over a history (from its initial state) -/
+def run {σ : Type} (step : σ → Tick → Value → σ × AState) (s0 : σ) : Hist → σ × AState
+  | [] => (s0, .none)
+  | f :: rest => step (run step s0 rest).1 f.2 f.1
+
+theorem run_cons {σ : Type} (step : σ → Tick → Value → σ × AState) (s0 : σ) (f : Frame) (rest : Hist) :
+    run step s0 (f :: rest) = step (run step s0 rest).1 f.2 f.1 := rfl
+
+/-! ### the time base -/
+
+/-- the timer increment of one frame: virtual delta when the condition is configured for relative (dilated) time, the
+    virtual delta unscaled by the relative speed (= real time) otherwise; nothing at relative speed zero -/
+def inc (rel : Bool) (t : Tick) : Rat :=
+  let sc := if rel then 1 else t.speed
+  if sc != 0 then t.delta / sc else 0
+
+theorem timer_update (tm : CTimer) (t : Tick) : tm.update t = { tm with duration := tm.duration + inc tm.relative t } := by
+  obtain ⟨rel, dur⟩ := tm
+  unfold CTimer.update inc
+  simp only
+  cases rel
+  · by_cases hs : t.speed = 0 <;> simp [hs]
+  · simp
+
+/-- relative (virtual) time base: the increment is the virtual delta -/
+theorem inc_relative (t : Tick) : inc true t = t.delta := by simp [inc]
+
+/-- default (real) time base: with `delta = raw * speed` and a positive speed the increment is the raw (real) delta -/
+theorem inc_real (raw speed : Rat) (hs : speed ≠ 0) : inc false { delta := raw * speed, speed := speed } = raw := by
+  simp only [inc, Bool.false_eq_true, if_false, bne_iff_ne, ne_eq, hs, not_false_eq_true, if_true]
+  exact mul_div_cancel_right₀ raw hs
+
+/-- paused (virtual delta 0) or relative speed 0: the timer does not advance — and stays finite (no division by zero) -/
+theorem inc_paused (rel : Bool) (speed : Rat) : inc rel { delta := 0, speed := speed } = 0 := by
+  unfold inc; simp only; split <;> simp
+
+theorem inc_speed_zero (d : Rat) : inc false { delta := d, speed := 0 } = 0 := by simp [inc]
+
+/-- how long the input has been actuated continuously up to and including the newest frame -/
+def held (act : Rat) (rel : Bool) : Hist → Rat
+  | [] => 0
+  | (v, t) :: rest => if v.isActuated act then held act rel rest + inc rel t else 0
+
+def actuatedNow (act : Rat) : Hist → Bool
+  | [] => false
+  | (v, _) :: _ => v.isActuated act
+
+/-! ### Press, JustPress, Release -/
+
+theorem press_spec (id : Nat) (act : Rat) (av : ActionsView) (t : Tick) (v : Value) :
+    ((Cond.press id act).eval av t v).2.1 = (if v.isActuated act then .fired else .none) := rfl
+
+def justPressStep (act : Rat) (prev : Bool) (_ : Tick) (v : Value) : Bool × AState :=
+  let a := v.isActuated act
+  (a, if a && !prev then .fired else .none)
+
+theorem justPress_is_step (id : Nat) (act : Rat) : (Cond.justPress id act).step = fun s _ t v => justPressStep act s t v := rfl
+
+theorem justPress_state (act : Rat) (h : Hist) : (run (justPressStep act) false h).1 = actuatedNow act h := by
+  cases h with
+  | nil => rfl
+  | cons f rest => rfl
+
+/-- JustPress fires exactly on a rising edge -/
+theorem justPress_spec (act : Rat) (f : Frame) (rest : Hist) :
+    (run (justPressStep act) false (f :: rest)).2 =
+      (if f.1.isActuated act && !actuatedNow act rest then .fired else .none) := by
+  simp only [run, justPressStep, justPress_state]
+
+def releaseStep (act : Rat) (prev : Bool) (_ : Tick) (v : Value) : Bool × AState :=
+  let a := v.isActuated act
+  (a, if a then .ongoing else if prev then .fired else .none)
+
+theorem release_is_step (id : Nat) (act : Rat) : (Cond.release id act).step = fun s _ t v => releaseStep act s t v := rfl
+
+theorem release_state (act : Rat) (h : Hist) : (run (releaseStep act) false h).1 = actuatedNow act h := by
+  cases h <;> rfl
+
+/-- Release: Ongoing while actuated, Fired exactly on a falling edge -/
+theorem release_spec (act : Rat) (f : Frame) (rest : Hist) :
+    (run (releaseStep act) false (f :: rest)).2 =
+      (if f.1.isActuated act then .ongoing else if actuatedNow act rest then .fired else .none) := by
+  simp only [run, releaseStep, release_state]
+
+/-! ### Hold -/
+
+def holdInit (rel : Bool) : HoldSt := { timer := { relative := rel } }
+
+/-- `Hold::evaluate` in terms of "actuated?" and the frame's timer increment -/
+def holdCore (T : Rat) (os : Bool) (dur : Rat) (fired : Bool) (a : Bool) (i : Rat) : (Rat × Bool) × AState :=
+  let dur' := if a then dur + i else 0
+  let fired' := leQ T dur'
+  ((dur', fired'),
+   if fired' then (if !fired || !os then .fired else .none) else if a then .ongoing else .none)
+
+theorem holdStep_core (T : Rat) (os : Bool) (act : Rat) (s : HoldSt) (t : Tick) (v : Value) :
+    let r := holdStep T os act s t v
+    let c := holdCore T os s.timer.duration s.fired (v.isActuated act) (inc s.timer.relative t)
+    r.1.timer.duration = c.1.1 ∧ r.1.timer.relative = s.timer.relative ∧ r.1.fired = c.1.2 ∧ r.2 = c.2 := by
+  simp only [holdStep, holdCore]
+  generalize v.isActuated act = a
+  cases a <;> simp [CTimer.reset, timer_update]
+
+theorem hold_state (T : Rat) (os : Bool) (act : Rat) (rel : Bool) (h : Hist) :
+    let s := (run (holdStep T os act) (holdInit rel) h).1
+    s.timer.duration = held act rel h ∧ s.timer.relative = rel ∧ (h ≠ [] → s.fired = leQ T (held act rel h)) := by
+  induction h with
+  | nil => simp [run, holdInit, held]
+  | cons f rest ih =>
+    obtain ⟨v, t⟩ := f
+    obtain ⟨ih1, ih2, _⟩ := ih
+    simp only [run_cons]
+    generalize (run (holdStep T os act) (holdInit rel) rest).1 = s at *
+    obtain ⟨c1, c2, c3, _⟩ := holdStep_core T os act s t v
+    refine ⟨?_, ?_, fun _ => ?_⟩
+    · rw [c1]; simp only [holdCore, held, ih1, ih2]
+    · rw [c2, ih2]
+    · rw [c3]; simp only [holdCore, held, ih1, ih2]
+
+/-- Hold fires once the input has been actuated continuously for the hold time (once only if one-shot); Ongoing while
+    actuated before that; None otherwise (`leQ a b` is `a ≤ b`) -/
+theorem hold_spec (T : Rat) (os : Bool) (act : Rat) (rel : Bool) (hT : 0 < T) (f : Frame) (rest : Hist) :
+    (run (holdStep T os act) (holdInit rel) (f :: rest)).2 =
+      (if leQ T (held act rel (f :: rest)) then (if !os || !leQ T (held act rel rest) then .fired else .none)
+       else if f.1.isActuated act then .ongoing else .none) := by
+  obtain ⟨v, t⟩ := f
+  obtain ⟨ih1, ih2, ih3⟩ := hold_state T os act rel rest
+  have hfired : (run (holdStep T os act) (holdInit rel) rest).1.fired = leQ T (held act rel rest) := by
+    cases rest with
+    | nil =>
+      have : ¬ T ≤ 0 := not_le.mpr hT
+      have h0 : leQ T 0 = false := by
+        cases h : leQ T 0
+        · rfl
+        · exact absurd ((leQ_iff T 0).mp h) this
+      simp [run, holdInit, held, h0]
+    | cons g r => exact ih3 (by simp)
+  rw [run_cons]
+  generalize (run (holdStep T os act) (holdInit rel) rest).1 = s at *
+  obtain ⟨_, _, _, c4⟩ := holdStep_core T os act s t v
+  rw [c4]
+  simp only [holdCore, held, ih1, ih2, hfired]
+  rw [Bool.or_comm (!os)]
+  split <;> split <;> first | rfl | simp_all
+
+/-! ### HoldAndRelease (D2 fix) and Tap -/
+
+def holdRelInit (rel : Bool) : HoldRelSt := { timer := { relative := rel } }
+
+theorem holdRel_state (T act : Rat) (rel : Bool) (h : Hist) :
+    let s := (run (holdRelStep T act) (holdRelInit rel) h).1
+    s.timer.duration = held act rel h ∧ s.timer.relative = rel ∧ s.actuated = actuatedNow act h := by
+  induction h with
+  | nil => simp [run, holdRelInit, held, actuatedNow]
+  | cons f rest ih =>
+    obtain ⟨v, t⟩ := f
+    obtain ⟨ih1, ih2, ih3⟩ := ih
+    simp only [run]
+    generalize (run (holdRelStep T act) (holdRelInit rel) rest).1 = s at *
+    simp only [holdRelStep, held, actuatedNow]
+    cases hv : v.isActuated act <;> simp [CTimer.reset, timer_update, ih1, ih2]
+
+/-- HoldAndRelease: Ongoing while actuated; Fired exactly on a release frame that follows an actuation whose measured
+    duration (the continuous actuation plus the release frame's own increment, as the code documents) reaches the hold
+    time; None otherwise — in particular never without a preceding actuation -/
+theorem holdRel_spec (T act : Rat) (rel : Bool) (f : Frame) (rest : Hist) :
+    (run (holdRelStep T act) (holdRelInit rel) (f :: rest)).2 =
+      (if f.1.isActuated act then .ongoing
+       else if actuatedNow act rest && leQ T (held act rel rest + inc rel f.2) then .fired else .none) := by
+  obtain ⟨v, t⟩ := f
+  obtain ⟨ih1, ih2, ih3⟩ := holdRel_state T act rel rest
+  simp only [run]
+  generalize (run (holdRelStep T act) (holdRelInit rel) rest).1 = s at *
+  simp only [holdRelStep]
+  cases hv : v.isActuated act <;> simp [timer_update, ih1, ih2, ih3]
+
+def tapInit (rel : Bool) : TapSt := { timer := { relative := rel } }
+
+theorem tap_state (T act : Rat) (rel : Bool) (h : Hist) :
+    let s := (run (tapStep T act) (tapInit rel) h).1
+    s.timer.duration = held act rel h ∧ s.timer.relative = rel ∧ s.actuated = actuatedNow act h := by
+  induction h with
+  | nil => simp [run, tapInit, held, actuatedNow]
+  | cons f rest ih =>
+    obtain ⟨v, t⟩ := f
+    obtain ⟨ih1, ih2, ih3⟩ := ih
+    simp only [run]
+    generalize (run (tapStep T act) (tapInit rel) rest).1 = s at *
+    simp only [tapStep, held, actuatedNow]
+    cases hv : v.isActuated act <;> simp [CTimer.reset, timer_update, ih1, ih2]
+
+/-- Tap, one evaluation: Fired exactly when the input was actuated at the previous evaluation, is released now, and the
+    continuous actuation measured so far (`tap_state`: the timer holds `held` of the history) lasted at most the release time -/
+theorem tap_fires_iff (T act : Rat) (s : TapSt) (t : Tick) (v : Value) :
+    (tapStep T act s t v).2 = .fired ↔ (s.actuated = true ∧ v.isActuated act = false ∧ s.timer.duration ≤ T) := by
+  unfold tapStep
+  simp only
+  rw [← leQ_iff]
+  cases s.actuated <;> cases v.isActuated act <;> cases leQ s.timer.duration T <;> simp <;>
+    (split <;> simp)
+
+/-- Tap, history form: on a release frame the decision reads the continuous actuation that preceded it -/
+theorem tap_history (T act : Rat) (rel : Bool) (f : Frame) (rest : Hist) :
+    (run (tapStep T act) (tapInit rel) (f :: rest)).2 = .fired ↔
+      (actuatedNow act rest = true ∧ f.1.isActuated act = false ∧ held act rel rest ≤ T) := by
+  obtain ⟨ih1, _, ih3⟩ := tap_state T act rel rest
+  rw [run_cons, tap_fires_iff, ih1, ih3]
+
+/-! ### Pulse -/
+
+def pulseInit (rel : Bool) : PulseSt := { timer := { relative := rel } }
+
+/-- Pulse, one evaluation: released ⇒ None and the trigger count is reset -/
+theorem pulse_released (I : Rat) (limit : Nat) (onStart : Bool) (act : Rat) (s : PulseSt) (t : Tick) (v : Value)
+    (h : v.isActuated act = false) :
+    (pulseStep I limit onStart act s t v).2 = .none ∧ (pulseStep I limit onStart act s t v).1.count = 0 := by
+  simp [pulseStep, h]
+
+/-- Pulse, one evaluation: it fires only while actuated and only below its limit, each fire advances the count by one,
+    and the count never exceeds the limit -/
+theorem pulse_fire_condition (I : Rat) (limit : Nat) (onStart : Bool) (act : Rat) (s : PulseSt) (t : Tick) (v : Value)
+    (hf : (pulseStep I limit onStart act s t v).2 = .fired) :
+    v.isActuated act = true ∧ (limit = 0 ∨ s.count < limit) ∧ (pulseStep I limit onStart act s t v).1.count = s.count + 1 := by
+  unfold pulseStep at hf ⊢
+  cases hv : v.isActuated act
+  · simp [hv] at hf
+  · simp only [hv, if_true] at hf ⊢
+    by_cases hl : (limit == 0 || decide (s.count < limit)) = true
+    · have hl' : limit = 0 ∨ s.count < limit := by simpa using hl
+      simp only [hl, if_true] at hf ⊢
+      cases onStart
+      · simp only [Bool.false_eq_true, if_false] at hf ⊢
+        split at hf
+        · rename_i hq; simp only [hq, if_true]; exact ⟨trivial, hl', trivial⟩
+        · cases hf
+      · simp only [if_true] at hf ⊢
+        split at hf
+        · rename_i hq; simp only [hq, if_true]; exact ⟨trivial, hl', trivial⟩
+        · cases hf
+    · simp only [hl, Bool.false_eq_true, if_false] at hf
+      cases hf
+
+theorem pulse_count_bounded (I : Rat) (limit : Nat) (onStart : Bool) (act : Rat) (s : PulseSt) (t : Tick) (v : Value)
+    (hl : limit ≠ 0) (hs : s.count ≤ limit) : (pulseStep I limit onStart act s t v).1.count ≤ limit := by
+  unfold pulseStep
+  cases hv : v.isActuated act
+  · simp
+  · simp only [if_true]
+    by_cases hc : (limit == 0 || decide (s.count < limit)) = true
+    · have : s.count < limit := by
+        simp only [Bool.or_eq_true, beq_iff_eq, decide_eq_true_eq] at hc
+        rcases hc with h | h
+        · exact absurd h hl
+        · exact h
+      simp only [hc, if_true]
+      cases onStart <;> simp only [Bool.false_eq_true, if_false, if_true] <;> split <;>
+        first | (show s.count + 1 ≤ limit; omega) | (show s.count ≤ limit; omega)
+    · simp only [hc, Bool.false_eq_true, if_false]; exact hs
+
+/-! ### none of them leaves None without the input having been actuated -/
+
+theorem held_never (act : Rat) (rel : Bool) (h : Hist) (hn : ∀ f ∈ h, f.1.isActuated act = false) : held act rel h = 0 := by
+  cases h with
+  | nil => rfl
+  | cons f rest => obtain ⟨v, t⟩ := f; simp [held, hn (v, t) (by simp)]
+
+theorem actuatedNow_never (act : Rat) (h : Hist) (hn : ∀ f ∈ h, f.1.isActuated act = false) : actuatedNow act h = false := by
+  cases h with
+  | nil => rfl
+  | cons f rest => obtain ⟨v, t⟩ := f; simp [actuatedNow, hn (v, t) (by simp)]
+
+theorem never_actuated_none (T act : Rat) (os rel : Bool) (hT : 0 < T)
+    (h : Hist) (hn : ∀ f ∈ h, f.1.isActuated act = false) :
+    (run (justPressStep act) false h).2 = .none
+    ∧ (run (releaseStep act) false h).2 = .none
+    ∧ (run (holdStep T os act) (holdInit rel) h).2 = .none
+    ∧ (run (holdRelStep T act) (holdRelInit rel) h).2 = .none
+    ∧ (run (tapStep T act) (tapInit rel) h).2 ≠ .fired := by
+  cases h with
+  | nil => exact ⟨rfl, rfl, rfl, rfl, by simp [run]⟩
+  | cons f rest =>
+    have hrest : ∀ g ∈ rest, g.1.isActuated act = false := fun g hg => hn g (by simp [hg])
+    have hf : f.1.isActuated act = false := hn f (by simp)
+    have h0 := held_never act rel (f :: rest) hn
+    have a1 := actuatedNow_never act rest hrest
+    have hl0 : leQ T 0 = false := by
+      cases h : leQ T 0
+      · rfl
+      · exact absurd ((leQ_iff T 0).mp h) (not_le.mpr hT)
+    refine ⟨?_, ?_, ?_, ?_, ?_⟩
+    · rw [justPress_spec]; simp [hf]
+    · rw [release_spec]; simp [hf, a1]
+    · rw [hold_spec T os act rel hT, h0, hl0]; simp [hf]
+    · rw [holdRel_spec]; simp [hf, a1]
+    · rw [Ne, tap_history]; simp [a1]
+
+/-- the timers stay non-negative (and finite: they are rationals) for every non-negative relative speed, while paused
+    and at speed zero -/
+theorem held_nonneg (act : Rat) (rel : Bool) (h : Hist) (hd : ∀ f ∈ h, 0 ≤ f.2.delta ∧ 0 ≤ f.2.speed) : 0 ≤ held act rel h := by
+  induction h with
+  | nil => simp [held]
+  | cons f rest ih =>
+    obtain ⟨v, t⟩ := f
+    have := ih (fun g hg => hd g (by simp [hg]))
+    obtain ⟨h1, h2⟩ := hd (v, t) (by simp)
+    have hi : 0 ≤ inc rel t := by
+      unfold inc
+      cases rel
+      · by_cases hs : t.speed = 0
+        · simp [hs]
+        · simp only [Bool.false_eq_true, if_false, bne_iff_ne, ne_eq, hs, not_false_eq_true, if_true]
+          exact div_nonneg h1 h2
+      · simpa using h1
+    simp only [held]
+    split
+    · linarith
+    · exact le_refl _
+
+/-- D2 (fixed by 582dab9): the pinned `HoldAndRelease` fired without any actuation when one frame's delta reached the hold time -/
+def legacyHoldRelStep (T act : Rat) (tm : CTimer) (t : Tick) (v : Value) : CTimer × AState :=
+  let timer := tm.update t
+  if v.isActuated act then (timer, .ongoing)
+  else (timer.reset, if leQ T timer.duration then .fired else .none)
+
+theorem legacy_holdRel_counterexample :
+    (legacyHoldRelStep (1/10) (1/2) {} ⟨1/4, 1⟩ (.bool false)).2 = .fired
+    ∧ (holdRelStep (1/10) (1/2) (holdRelInit false) ⟨1/4, 1⟩ (.bool false)).2 = .none := by
+  constructor <;> simp [legacyHoldRelStep, holdRelStep, holdRelInit, CTimer.update, CTimer.reset, Value.isActuated, Value.as3, V3.normSq, leQ] <;> norm_num
+
 end BEI.Props.C11
